@@ -969,6 +969,16 @@ impl State {
         OK
     }
 
+    /// Abandon the program that was interrupted by an error: the instructions it did not reach
+    /// are skipped and the call frames, loops and builders it left open are dropped.
+    /// The data stack and all variables are kept.
+    pub fn abort_run(&mut self) {
+        self.return_stack.truncate(self.ctx.rs_len);
+        self.loops.truncate(self.ctx.ls_len);
+        self.special.truncate(self.ctx.ss_ptr);
+        self.ctx.ip = self.code.len();
+    }
+
     fn set_runtime_err_location(&mut self, e: &Xerr) {
         if self.last_error.is_none() {
             let location = self.location_from_current_ip();
